@@ -367,7 +367,7 @@ private:
 
     // ------------------------------------------------------------------------------------------------
     void randomKeyword(StepM& st) {
-        int pick = (int)rng.below(70);
+        int pick = (int)rng.below(71);
         WellM* w = anyWell();
         std::ostringstream s;
         switch (pick) {
@@ -452,6 +452,16 @@ private:
         case 67: { WellM* i = anyInjector(); if (!i) return; s << "WTEMP\n " << q(i->name) << " " << fmtd(20 + rng.below(60)) << " /\n/\n"; add(st, "WTEMP", s.str()); return; }
         case 68: { s << "DRSDTR\n " << fmtd(0.001 * (1 + rng.below(10))) << " '" << (rng.chance(0.5) ? "ALL" : "FREE") << "' /\n"; add(st, "DRSDTR", s.str()); return; }
         case 69: { if (!w) return; s << "WECON\n " << q(wellOrPattern()) << " " << fmtd(rng.below(10)) << " " << fmtd(rng.below(1000)) << " " << frac() << " " << fmtd(100 + rng.below(900)) << " 1* '" << (rng.chance(0.5) ? "CON" : "+CON") << "' '" << (rng.chance(0.5) ? "YES" : "NO") << "' /\n/\n"; add(st, "WECON", s.str()); return; }
+        case 70: { // WELSEGS entered again for a well that already has segments (same topology, one segment re-dimensioned)
+            std::vector<WellM*> v; for (auto& x : M->wells) if (x.msw) v.push_back(&x); if (v.empty()) return;
+            WellM& m = *v[rng.below(v.size())];
+            const double top = 1990; const size_t changed = rng.below(m.ks.size());
+            s << "WELSEGS\n " << q(m.name) << " " << fmtd(top) << " " << fmtd(top) << " 1.0e-5 'ABS' 'HFA' 'HO' /\n";
+            int seg = 2;
+            for (size_t c = 0; c < m.ks.size(); ++c, ++seg)
+                s << " " << seg << " " << seg << " 1 " << seg - 1 << " " << fmtd(top + 10.0 * (c + 1)) << " " << fmtd(2000 + 10.0 * m.ks[c] - 5) << " " << (c == changed ? fmtd(0.1 + 0.01 * rng.below(9)) : std::string("0.2")) << " 0.0001 /\n";
+            s << "/\n";
+            add(st, "WELSEGS", s.str()); return; }
         case 43: { WellM* i = anyInjector(); if (!i) return; s << "WINJMULT\n " << q(i->name) << " " << fmtd(100 + rng.below(200)) << " " << fmtd(0.001 * (1 + rng.below(5))) << " '" << (rng.chance(0.5) ? "WREV" : "CIRR") << "' /\n/\n"; add(st, "WINJMULT", s.str()); return; }
         }
     }
